@@ -114,7 +114,8 @@ def run(tier: str, verif_seed: int) -> int:
             distinct_nontrivial=len({(json.dumps(c["env"], sort_keys=True), c["perm"]) for c in confs if c["n_accepted"] > 0}),
             rule=(
                 "one evaluation = the complete overload-resolution outcome table (every operator x every argument-type tuple "
-                "over the 48-type universe for arity <= 2, declared types for later positions, plus lca_type over pairs/triples; "
+                "over the 48-type universe for arity <= 2, declared types for later positions, plus lca_type over pairs/triples and casts; "
+                "additionally ~16k (operator, column-type tuple) cases through one reused deferred expression per operator in mutate (O13.5); "
                 "resolution and ColFn construction) recomputed in one configuration = (PYTHONHASHSEED, dtype-hash salt, "
                 "declaration-order permutation of every signature trie node and of IMPLICIT_CONVS); distinct = distinct "
                 "configuration; non-trivial = the table has accepted entries"
@@ -124,6 +125,7 @@ def run(tier: str, verif_seed: int) -> int:
             table_entries_per_configuration=n_entries,
             accepted_entries=ref["n_accepted"],
             total_resolutions=sum(c["n_entries"] for c in confs) * 2,
+            deferred_route_cases_per_configuration=ref.get("n_deferred", 0),
             configurations_compared_with_reference=n_compared,
             interpreter_environments=len(envs),
             permutations=sum(1 for c in confs if c["perm"] != 0),
@@ -162,7 +164,7 @@ def replay(payload) -> int:
         envs.append((payload["env_b"], payload.get("perm_b") or 0))
     tables = []
     for k, (env, perm) in enumerate(envs):
-        job = dict(kind="conf_types", perms=[perm], only_ops=payload.get("ops"), dump_ops=payload.get("ops"), hard_timeout=300)
+        job = dict(kind="conf_types", perms=[perm], only_ops=payload.get("ops"), dump_ops=payload.get("ops"), deferred=payload["oracle"] == "O13.5", hard_timeout=300)
         pr = R.spawn(job, env, f"replay-C13-{os.getpid()}-{k}")
         errs = R.wait_all([pr], 300)
         recs = [r for r in R.read_jsonl(pr["out"]) if r["type"] == "conf"]
